@@ -126,6 +126,23 @@ func TestVerif_C12_HttpSurface(t *testing.T) {
 				`{"token":"x","group":"y"}`, `{"expires":12}`, "{", "garbage\x00\xff", "v=0\r\n", "a=ice-ufrag:x\r\na=ice-pwd:y\r\n", "q=delete&filename=..%2Fx", "q=bogus",
 				"v=0\r\no=- 1 2 IN IP4 127.0.0.1\r\ns=-\r\nt=0 0\r\nm=audio 9 UDP/TLS/RTP/SAVPF 111\r\nc=IN IP4 0.0.0.0\r\na=mid:0\r\na=sendonly\r\na=rtpmap:111 opus/48000/2\r\n"}
 			body = []byte(rapid.SampledFrom(bodies).Draw(t, "body"))
+			if strings.HasSuffix(target, "/.keys") && rapid.Bool().Draw(t, "jwkSet") {
+				// key sets with every field at its boundaries (the server validates them inside the handler)
+				ct = "application/jwk-set+json"
+				hdr["Content-Type"] = ct
+				jwks := []string{
+					`{"kty":"RSA","alg":"RS256","n":"AQAB","e":"AAAAAAAAAAEAAQ"}`, `{"kty":"RSA","alg":"RS256","n":"","e":""}`, `{"kty":"RSA","alg":"RS256","n":"AQAB","e":"AAAAAAAAAAAAAAAAAAAAAQAB"}`,
+					`{"kty":"RSA","alg":"RS256","n":1,"e":[]}`, `{"kty":"EC","alg":"ES256","crv":"P-256","x":"AA","y":"AA"}`, `{"kty":"EC","alg":"ES256","crv":"P-256","x":"","y":""}`,
+					`{"kty":"EC","alg":"ES256","crv":"P-384","x":"AQ","y":"AQ"}`, `{"kty":"EC","alg":"ES256","x":"AQ"}`, `{"kty":"oct","alg":"HS256","k":"AA"}`, `{"kty":"oct","alg":"HS256","k":"!!!"}`,
+					`{"kty":"oct","alg":"HS256","k":"` + strings.Repeat("A", 43) + `"}`, `{"kty":"oct","alg":"HS512","k":"` + strings.Repeat("A", 400) + `"}`, `{"kty":1,"alg":null}`, `{"alg":"HS256"}`, `{}`, `null`, `7`,
+				}
+				n := rapid.IntRange(0, 3).Draw(t, "njwk")
+				var ks []string
+				for i := 0; i < n; i++ {
+					ks = append(ks, rapid.SampledFrom(jwks).Draw(t, "jwk"))
+				}
+				body = []byte(`{"keys":[` + strings.Join(ks, ",") + `]}`)
+			}
 			if rapid.IntRange(0, 40).Draw(t, "huge") == 0 {
 				body = []byte(`{"displayName":"` + strings.Repeat("x", 1100*1024) + `"}`)
 			}
